@@ -8,7 +8,7 @@
 From Coq Require Import List Arith NArith ZArith Bool.
 Import ListNotations.
 Require Import PV.Stack.Model PV.Stack.Proofs PV.Comb.PState PV.Comb.Bytes PV.Comb.Prog PV.Comb.Exec
-               PV.Comb.Frame PV.Comb.Contracts.
+               PV.Comb.Frame PV.Comb.Contracts PV.Comb.Utf8 PV.Comb.Utf8b PV.Comb.Utf8c.
 
 (* (1) a failed sequence leaves position, emitted tokens and stack contents as they were
        (tokens up to node tags, see C03_sequence_tag_refuted), and look-ahead / atomicity too *)
@@ -50,14 +50,63 @@ Definition C03_rule_clause : Prop :=
 Definition C03_frame_clause : Prop :=
   forall cfg E fuel p s a, wf s -> Inv (stack s) a -> post s a (exec cfg E fuel p s).
 
+(* (5) the matching primitives, for a valid UTF-8 input, a char-boundary position and valid UTF-8
+       needles: they never slice off a boundary, advance over exactly the matched text, always to
+       a boundary, and report failure without moving (PStay) *)
+Definition C03_primitive_clause : Prop :=
+  (forall inp p s, valid_utf8 inp -> boundaryb inp p = true -> valid_utf8 s ->
+     match match_string inp p s with
+     | PMoved p' => p' = p + length s /\ firstn (length s) (skipn p inp) = s /\ boundaryb inp p' = true
+     | PStay => prefixb s (skipn p inp) = false
+     | PPanic => False end) /\
+  (forall inp p s, boundaryb inp p = true ->
+     match match_insensitive inp p s with
+     | PMoved p' => p' = p + length s /\ boundaryb inp p' = true /\
+                    map ascii_lower (firstn (length s) (skipn p inp)) = map ascii_lower s
+     | PStay => boundaryb inp (p + length s) && prefixb_ci s (skipn p inp) = false
+     | PPanic => False end) /\
+  (forall inp p lo hi, valid_utf8 inp -> boundaryb inp p = true ->
+     char_contract inp p (fun c => (lo <=? c)%N && (c <=? hi)%N) (match_range inp p lo hi)) /\
+  (forall inp p rs, valid_utf8 inp -> boundaryb inp p = true ->
+     char_contract inp p (in_ranges rs) (match_char_by inp p rs)) /\
+  (forall cs k n, Forall scalar cs -> k <= length cs ->
+     skip (flat_map encode cs) (length (flat_map encode (firstn k cs))) n =
+     if k + n <=? length cs then PMoved (length (flat_map encode (firstn (k + n) cs))) else PStay) /\
+  (forall inp p ss, p <= length inp ->
+     let r := skip_until_basic inp p ss in
+     p <= r <= length inp /\ (r = length inp \/ hit inp ss r = true) /\ forall q, p <= q < r -> hit inp ss q = false).
+
+(* (6) byte-level frame of whole programs: from a valid UTF-8 input at a boundary, with valid
+       needles, every reachable state is again at a boundary of a valid input with valid stack
+       strings, and no boundary panic can happen; and the memchr-accelerated search (as repaired,
+       see known_findings: fixed C03-skip-until-3) gives exactly the result of the plain loop *)
+Definition C03_byte_clause : Prop :=
+  (forall cfg E, cfg_ok cfg -> env_valid E -> forall fuel p s a,
+     prog_valid p -> wf s -> Inv (stack s) a -> utf8_ok s -> upost (exec cfg E fuel p s)) /\
+  (forall E fuel p s a l1 l2 f2, env_valid E -> prog_valid p -> wf s -> Inv (stack s) a -> utf8_ok s ->
+     exec {| memchr := true; fixed3 := true; fixedlim := l1 |} E fuel p s =
+     exec {| memchr := false; fixed3 := f2; fixedlim := l2 |} E fuel p s).
+
 Definition C03_statement_proved_part : Prop :=
-  C03_sequence_clause /\ C03_lookahead_clause /\ C03_rule_clause /\ C03_frame_clause.
+  C03_sequence_clause /\ C03_lookahead_clause /\ C03_rule_clause /\ C03_frame_clause /\
+  C03_primitive_clause /\ C03_byte_clause.
 
 Theorem C03_combinators_partial : C03_statement_proved_part.
 Proof.
   split; [exact sequence_err_restores|]. split; [split; [exact lookahead_restores|exact exec_quiet]|].
-  split; [exact rule_contract|exact exec_post].
+  split; [exact rule_contract|]. split; [exact exec_post|].
+  split.
+  - split; [exact match_string_contract|]. split; [exact match_insensitive_contract|].
+    split; [exact match_range_contract|]. split; [exact match_char_by_contract|].
+    split; [exact skip_chars|exact skip_until_basic_spec].
+  - split; [exact exec_boundary|exact exec_memchr_eq_basic].
 Qed.
+
+(* the memchr arm as it was before the fix: commit is refuted (kept as a regression witness) *)
+Theorem C03_memchr_unfixed_refuted :
+  skip_until_basic [120%N; 120%N; 97%N] 0 [[97%N]; [98%N]; []] = 0 /\
+  skip_until_memchr false [120%N; 120%N; 97%N] 0 [[97%N]; [98%N]; []] = Some 2.
+Proof. vm_compute. auto. Qed.
 
 (* The same sequence clause with the tokens compared EXACTLY (tags included) is false:
    rule(2, "a") ; sequence(tag_node(0) ; fail)  leaves tag 0 on the earlier End token. *)
@@ -94,3 +143,4 @@ Proof. vm_compute. auto. Qed.
 
 Print Assumptions C03_combinators_partial.
 Print Assumptions C03_sequence_tag_refuted.
+Print Assumptions C03_memchr_unfixed_refuted.
